@@ -2,6 +2,7 @@
 from __future__ import annotations
 
 import ast
+from ..core import utext
 
 from ..core import AnalysisError, Program, call_name, norm, parent
 from ..geo import B, I, K, N, PS, S, Geo
@@ -134,6 +135,9 @@ def run(prog: Program, res: Result, tier: str) -> None:
             ok, why = atoms_are_ids(fi, ae)
             if ok:
                 res.ok("R-POS-ID", inst2, fi.loc(c))
+            elif ok is None:
+                res.unrecognised("R-POS-ID", inst2, fi.loc(c),
+                                 f"provenance of `{why}` not followed")
             else:
                 res.bad("R-POS-ID", f"{name}: {norm(ae, 70)}", fi.loc(c),
                         f"{name}: the descriptor is built from `{why}`, a "
@@ -208,7 +212,21 @@ def atoms_are_ids(fi, ae: ast.AST):
             return ok(e.args[0], depth + 1)
         if isinstance(e, ast.Constant) and e.value is None:
             return True, ""
-        return False, norm(e, 50)
+        if isinstance(e, ast.IfExp):
+            for x in (e.body, e.orelse):
+                r = ok(x, depth + 1)
+                if not r[0]:
+                    return r
+            return True, ""
+        if isinstance(e, ast.BinOp) and isinstance(e.op, ast.Add):
+            for x in (e.left, e.right):
+                r = ok(x, depth + 1)
+                if not r[0]:
+                    return r
+            return True, ""
+        if isinstance(e, ast.Constant) and isinstance(e.value, int):
+            return False, norm(e, 50)
+        return None, norm(e, 50)
     return ok(ae)
 
 
@@ -238,7 +256,7 @@ def check_symmetry(prog: Program, res: Result) -> None:
                 "answer depends on the order of the points", instance=inst)
         return
     # symmetric forms: the rotation feeds the points used, or a volume form
-    t = ast.unparse(fi.node)
+    t = utext(fi.node)
     if ("p1, p2, p3, p4 = d" in t or "are_planar_volume(" in t
             or "itertools.permutations(" in t or "permutations(" in t):
         res.ok("R-GEO-SYM", inst, fi.loc())
@@ -298,7 +316,7 @@ def check_stero_from_geometry(prog: Program, res: Result) -> None:
     """The neighbour tuples handed to the perception functions carry real
     identifiers and the coordinates of exactly those atoms."""
     fi = prog.fn(f"{XYZ}:stero_from_geometry")
-    t = ast.unparse(fi.node)
+    t = utext(fi.node)
     # the coordinates handed to a perception function are those of exactly
     # the atoms handed to it, in the same order
     n = 0
